@@ -27,9 +27,10 @@
    spec_reqs / spec_areqs / spec_vact(s): the association-list semantics of request programs (MpScopeSpec.v);
    run_obj_root / run_arr_root / load_obj / load_arr: the scope MODEL on the bytes (MpScopeModel.v).
    doc_ok (abs v): the keys of every class in v are pairwise different (key_eq; for string names: different
-   byte strings) — "keys_ok".  bytes b: all < 256.  narrow / widen: the C++ float conversions (any). *)
+   byte strings) — "keys_ok".  bytes b: all < 256; wf_bytes v: the strings and byte containers of the value tree
+   v hold bytes (MpLoadBytes.v).  narrow / widen: the C++ float conversions (any). *)
 From BS Require Import Base MpSpec MpModel MpLemmas MpReader MpTyped MpSaveModel MpSave
-  MpScopeSpec MpScopeModel MpScopeLemmas MpScopeTyped MpScopeProofs MpScopeRefine MpLoadModel MpLoadProofs.
+  MpScopeSpec MpScopeModel MpScopeLemmas MpScopeTyped MpScopeProofs MpScopeRefine MpLoadModel MpLoadBytes MpLoadProofs.
 Local Open Scope N_scope.
 
 (* ---- save then load ---- *)
@@ -242,11 +243,17 @@ Theorem T_C01_mp_load_map_on_model : forall narrow widen o data kvs rest m ks e 
 Proof. exact load_map_on_model. Qed.
 Print Assumptions T_C01_mp_load_map_on_model.
 
+(* what SaveObject writes consists of bytes — the only condition is on the VALUE: wf_bytes v = its strings and byte
+   containers hold bytes (C++ char: all < 256), at every depth; integers in the range of their type (wf_tv) *)
+Theorem T_C01_mp_save_writes_bytes : forall v b, wf_tv v -> wf_bytes v = true -> save v = Some b -> bytes b.
+Proof. exact save_bytes. Qed.
+Print Assumptions T_C01_mp_save_writes_bytes.
+
 (* save then load, scope-model form: the history run on the saved bytes b with the MODEL gives the tokens from
    which the saved tree is read off, ends at the end of b, close flag clear — whatever the target holds *)
 Theorem T_C01_mp_load_save_on_model : forall narrow widen o kvs ms i b,
   has_shape (TObj kvs) (SClass ms) = true -> clean_maps (SClass ms) = true -> wf_tv (TObj kvs) -> doc_ok (abs (TObj kvs)) = true ->
-  save (TObj kvs) = Some b -> bytes b ->
+  wf_bytes (TObj kvs) = true -> save (TObj kvs) = Some b ->
   exists toks, load_tr narrow widen o (SClass ms) i (abs (TObj kvs)) = (toks, LOk (TObj kvs)) /\
     run_obj_root narrow widen o b (class_prog o ms i (map absp kvs)) = Done toks [] false /\
     load_obj narrow widen o b (class_prog o ms i (map absp kvs)) = MpScopeModel.LOk toks [].
@@ -255,7 +262,7 @@ Print Assumptions T_C01_mp_load_save_on_model.
 
 Theorem T_C01_mp_load_save_map_on_model : forall narrow widen o kvs ks e i b,
   has_shape (TObj kvs) (SMap MClean ks e) = true -> clean_maps e = true -> wf_tv (TObj kvs) -> doc_ok (abs (TObj kvs)) = true ->
-  save (TObj kvs) = Some b -> bytes b ->
+  wf_bytes (TObj kvs) = true -> save (TObj kvs) = Some b ->
   exists toks, load_tr narrow widen o (SMap MClean ks e) i (abs (TObj kvs)) = (toks, LOk (TObj kvs)) /\
     run_obj_root narrow widen o b (map_prog o MClean ks e i (map absp kvs)) = Done toks [] false /\
     load_obj narrow widen o b (map_prog o MClean ks e i (map absp kvs)) = MpScopeModel.LOk toks [].
@@ -264,7 +271,7 @@ Print Assumptions T_C01_mp_load_save_map_on_model.
 
 Theorem T_C01_mp_load_save_vec_on_model : forall narrow widen o l e i b,
   has_shape (TArr l) (SVec e) = true -> clean_maps e = true -> wf_tv (TArr l) -> doc_ok (abs (TArr l)) = true ->
-  save (TArr l) = Some b -> bytes b ->
+  wf_bytes (TArr l) = true -> save (TArr l) = Some b ->
   exists toks, load_tr narrow widen o (SVec e) i (abs (TArr l)) = (toks, LOk (TArr l)) /\
     run_arr_root narrow widen o b (vec_prog o e i (map abs l)) = Done toks [] false /\
     load_arr narrow widen o b (vec_prog o e i (map abs l)) = MpScopeModel.LOk toks [].
